@@ -643,8 +643,8 @@ def tests(tier):
     name = st.one_of(st.integers(0, 20), st.integers(0, 20), st.integers(0, 20), st.integers(330, 700))
     s_h = s_case(tier, {"drv": st.sampled_from([True, True, True, False]), "na": name, "nb": name})
     tam = st.fixed_dictionaries({"m": st.integers(0, 11), "f": st.integers(0, 5), "kind": st.sampled_from(KINDS), "pos": st.integers(0, 1023), "mask": st.integers(1, 255),
-                                 "drv": st.sampled_from([False, False, True])})
-    s_t = s_case(tier, {"tampers": st.lists(tam, min_size=10, max_size=10)})
+                                 "drv": st.sampled_from([False, True])})
+    s_t = s_case(tier, {"tampers": st.lists(tam, min_size=10, max_size=10), "na": name, "nb": name})      # long certificates: altered messages on the multi-block read path of the drivers
     s_m = s_case(tier, {"kind": st.integers(0, 29), "var": st.integers(0, 11)})
     return [
         Test("honest", s_h, run_honest, {"quick": 400, "thorough": 6000}, CFG),
